@@ -689,6 +689,69 @@ func concCase(r *hx.Rand) {
 	id++
 }
 
+// binomCoverage is the exact probability that the median lies between the lo-th and hi-th order
+// statistic of n values: sum of C(n,k)/2^n over lo <= k < hi (float64 is ample for n <= 70).
+func binomCoverage(n, lo, hi int) float64 {
+	c := math.Ldexp(1, -n) // C(n,0)/2^n
+	sum := 0.0
+	for k := 0; k < hi && k <= n; k++ {
+		if k >= lo {
+			sum += c
+		}
+		c = c * float64(n-k) / float64(k+1)
+	}
+	return sum
+}
+
+// windowFamily: for more than 30 values QuantileCI works from a normal approximation; there are narrow
+// windows of confidence levels (about 1e-4 wide, below 0.7) in which the EXACT coverage of the order
+// statistics it picks is below the requested level while the reported (approximate) confidence is
+// not. The summaries at such (n, level) pairs pin the clause "reported confidence at least the
+// requested level" (seed C13-Q reported the exact coverage there). Fixed witnesses plus a grid scan.
+func windowFamily(r *hx.Rand) {
+	type key struct {
+		n int
+		c float64
+	}
+	ks := []key{{37, 0.676}, {31, 0.28}, {39, 0.6633}, {52, 0.6683}, {70, 0.1875}}
+	ns := []int{31, 37, 39, 52, 70}
+	step, limit := 1e-4, 40
+	if hx.Tier() == "thorough" {
+		ns = nil
+		for n := 31; n <= 70; n++ {
+			ns = append(ns, n)
+		}
+		limit = 600
+	}
+	found := 0
+	scan := func(n int, from, to, step float64) {
+		for c := from; c < to && found < limit; c += step {
+			ci := stats.QuantileCI(n, 0.5, c)
+			if ci.LoOrder >= 1 && ci.HiOrder <= n && binomCoverage(n, ci.LoOrder, ci.HiOrder) < c-1e-9 {
+				ks = append(ks, key{n, c})
+				found++
+				c += 20 * step // one or two per window
+			}
+		}
+	}
+	for _, n := range ns {
+		scan(n, 0.05, 0.7, step)
+	}
+	if hx.Tier() == "thorough" { // a 1e-5 sweep over a few sizes
+		limit += 200
+		for _, n := range []int{31, 37, 44, 52, 63, 70} {
+			scan(n, 0.05, 0.7, 1e-5)
+		}
+	}
+	for _, k := range ks {
+		xs := make([]float64, k.n)
+		for i := range xs {
+			xs[i] = float64(r.Intn(2000)) / 16
+		}
+		sumCase("nothing", xs, k.c, "nothing+window")
+	}
+}
+
 // globCase: package-level state after the whole run.
 func globCase() {
 	tab := benchmath.VerifUTestMinP()
@@ -1134,6 +1197,23 @@ func xFamily(r *hx.Rand, n int) {
 		}
 		cmpCase(r, "normal", v1, v2, pickAlpha(r), false, "normal+xfam+x3")
 		cmpCase(r, "nothing", v1, v2, pickAlpha(r), false, "nothing+xfam+x3")
+		// rank-based comparison of opposite-sign samples near ±MaxFloat64: the plain SUM of each sample
+		// overflows (to +Inf and -Inf), the ranks do not care. Small sizes: judged by the exact
+		// permutation p-value, the swap and the 2^k rescaling (seed C13-R).
+		m1, m2 := 2+r.Intn(5), 2+r.Intn(5)
+		w1 := make([]float64, m1)
+		w2 := make([]float64, m2)
+		for j := range w1 {
+			w1[j] = math.Ldexp(1+r.Float()*0.7, 1023)
+		}
+		for j := range w2 {
+			w2[j] = -math.Ldexp(1+r.Float()*0.7, 1023)
+		}
+		if r.Bool() {
+			w1, w2 = w2, w1
+		}
+		cmpCase(r, "nothing", w1, w2, pickAlpha(r), false, "nothing+xfam+sumovf")
+		cmpCase(r, "exact", w1, w2, pickAlpha(r), false, "exact+xfam+sumovf")
 	}
 }
 
@@ -1192,6 +1272,7 @@ func main() {
 		aliasCase(ra)
 	}
 	cacheFamily(hx.NewRand(1318))
+	windowFamily(hx.NewRand(1320))
 	rc := hx.NewRand(1319)
 	for i := hx.N(60, 600); i > 0; i-- {
 		concCase(rc)
